@@ -575,6 +575,34 @@ def index_aliasing_checks(st):
                     break
 
 
+# ---- (3f) tag names that collide once mangled, or that are words of any plausible generated code ------------------------
+
+def name_collision_checks(st):
+    import hszinc as hs
+    S = lambda x: ('str', x)  # noqa: E731
+    rows = [{'id': ('str', 'e1'), 'siteRef': ('ref', 's1', None), 'equip': MK},
+            {'id': ('str', 'e2'), 'siteRef': ('ref', 's1', None), 'siteRef_dis': MK, 'a_b': S('flat')},
+            {'id': ('str', 's1'), 'dis': S('Site 1'), 'a': ('ref', 'e2', None), 'b': S('deep')},
+            {'id': ('str', 'x1'), 'entity': MK, 'dis': S('Thing')}, {'id': ('str', 'x2'), 'grid': MK, 'row': MK},
+            {'id': ('str', 'x3'), 'literals': MK, 'a': ('ref', 's1', None)}, {'id': ('str', 'x4'), 'compare': MK, 'get_path': S('g')},
+            {'id': ('str', 'x5'), 'self': MK, 'fn': MK, 'filter': MK, 'lambda_x': MK, 'result': MK, 'value': N.num(1.0)}]
+    has = lambda *p: ('has', tuple(p))  # noqa: E731
+    nt = lambda *p: ('not', tuple(p))  # noqa: E731
+    asts = [('and', ('cmp', '==', ('siteRef', 'dis'), S('Site 1')), nt('siteRef_dis')), ('and', has('siteRef_dis'), ('cmp', '==', ('siteRef', 'dis'), S('Site 1'))),
+            ('or', ('cmp', '==', ('a', 'b'), S('deep')), ('cmp', '==', ('a_b',), S('flat'))), ('and', ('cmp', '==', ('a_b',), S('flat')), nt('a', 'b')),
+            ('and', has('entity'), ('cmp', '==', ('dis',), S('Thing'))), ('and', has('grid'), has('row')), ('and', has('literals'), has('a', 'dis')),
+            ('or', has('compare'), has('equip')), ('and', ('cmp', '==', ('get_path',), S('g')), has('compare')),
+            ('and', has('self'), ('and', has('fn'), ('and', has('filter'), ('and', has('result'), ('cmp', '==', ('value',), N.num(1.0)))))),
+            ('or', nt('entity'), has('grid')), ('and', nt('literals'), nt('compare'))]
+    judged = [('row%d' % i, r) for i, r in enumerate(rows)]
+    for k, ast in enumerate(asts):
+        text = RF.render(ast)
+        sig = {'part': 'name-collision', 'filter': text[:60]}
+        case = {'part': 'name-collision', 'k': k}
+        ok = judge(hs, ast, text, rows, judged, st, sig, case, check_header=False)
+        st.case(('name-collision', text), outcome=('name-collision', ok))
+
+
 # ---- (4) limit, empty filter -----------------------------------------------------------------------
 
 def limit_checks(st):
@@ -671,6 +699,7 @@ def run(ctx):
     for part in pmap(_hot_task, [(1300 if ctx.quick else 4000,)], ctx.jobs):
         st.merge(part)
     nan_consistency(st)
+    name_collision_checks(st)
     index_aliasing_checks(st)
     limit_checks(st)
     spacing_checks(st)
@@ -707,6 +736,9 @@ def replay(case, st):
     p = case['part']
     if p == 'pair':
         st.merge(pair_task([(case['l1'], case['l2'], case['conn'], case['op1'], case['op2'])]))
+        return
+    if p == 'name-collision':
+        name_collision_checks(st)
         return
     if p == 'index-aliasing':
         index_aliasing_checks(st)
